@@ -82,8 +82,11 @@ Verdict(r) ==
       oGv(g) == r.ool.gv[g] = OolGlobal(M, W, g)
       \* ---------------- the emitted tables themselves against Encode(env) (harness: module_tables)
       T == r.tables
+      \* (model.py computes the name of a pointer/array/function type when the object is built; a
+      \*  later "typedef struct s1 t1" renames s1 but not the types built before, so sorted(key=str)
+      \*  sees stale names: the table *order* is then not modelled and the comparison is skipped)
       tabBad ==
-        IF ~Has(T, "types") THEN {}
+        IF ~Has(T, "types") \/ \E key \in DOMAIN ev.su : ForcedTagged(ev, key) THEN {}
         ELSE (IF T.types = W THEN {} ELSE {"types"})
              \cup (IF Len(T.globals) = Len(M.globals)
                       /\ \A i \in DOMAIN M.globals : T.globals[i] = <<M.globals[i].name, M.globals[i].w,
